@@ -14,6 +14,8 @@ use std::panic::{catch_unwind, AssertUnwindSafe};
 use std::sync::Arc;
 
 const MARK: i32 = -2;
+/// thorough tier: VERIF_SWEEP_DEEP=1 enlarges the bounded families
+fn deep() -> bool { std::env::var("VERIF_SWEEP_DEEP").is_ok() }
 
 fn mk_dbs() -> Arc<Databases> {
     let (s1, r1): (Sender<String>, Receiver<String>) = channel(1000);
@@ -309,7 +311,7 @@ fn all_pending_scenarios() -> Vec<String> {
         if depth == 0 { return; }
         for e in evs { cur.push(e.to_string()); rec(evs, cur, depth - 1, out); cur.pop(); }
     }
-    rec(&evs, &mut vec![], 5, &mut out);
+    rec(&evs, &mut vec![], if deep() { 6 } else { 5 }, &mut out);
     out
 }
 
@@ -380,7 +382,7 @@ fn all_oplog_scenarios() -> Vec<String> {
         let last = cur.last().cloned().unwrap_or(10);
         for gap in [0u64, 1, 2] { cur.push(last + gap); rec(cur, depth - 1, out); cur.pop(); }
     }
-    rec(&mut vec![], 6, &mut out);
+    rec(&mut vec![], if deep() { 8 } else { 6 }, &mut out);
     out
 }
 
@@ -516,6 +518,9 @@ fn all_session_scenarios() -> Vec<String> {
         for a in DATA_CMDS.iter().chain(ADMIN_CMDS.iter()) { out.push(format!("{}|{}", l, a)); }
         for f in USE_FAIL { for a in ["get secret", "get public1", "set secret x", "keys", "remove sea"] { out.push(format!("{}|{};{}", l, f, a)); } }
         for a in ["set public1 y", "remove public1", "remove secret", "increment sea 1"] { for b in ["keys", "keys *", "get public1", "get secret", "keys pub*"] { out.push(format!("{}|{};{}", l, a, b)); } }
+        if deep() {
+            for a in DATA_CMDS.iter().chain(USE_FAIL.iter()) { for b in DATA_CMDS.iter().chain(ADMIN_CMDS.iter()) { out.push(format!("{}|{};{}", l, a, b)); } }
+        }
     }
     out
 }
